@@ -231,7 +231,12 @@ func (arch *Arch) Assembler_process_line(line []byte) (string, error) {
 			for i, op := range arch.Op {
 				if op.Op_get_name() == words[0] {
 					if result, err := op.Assembler(arch, words[1:]); err == nil {
-						return zeros_prefix(opbits, get_binary(i)) + result, nil
+						word := zeros_prefix(opbits, get_binary(i)) + result
+						if len(word) > arch.Max_word() {
+							// An operand wider than its field makes the word longer than the ROM word
+							return "", Prerror{"operand does not fit the instruction word, error processing " + op.Op_get_name()}
+						}
+						return word, nil
 					} else {
 						return "", Prerror{err.Error() + ", error processing " + op.Op_get_name()}
 					}
